@@ -23,7 +23,7 @@ THEOREMS = [
 TRUSTED_BASE = common.TRUSTED_BASE_COMMON
 ASSUMPTIONS = ["known finding D1: join: n with n below the number of inbound tasks re-fires on a late arrival"]
 FAM = progs.family(p_join=0.9, p_join_count=0.4, p_late_join=0.25, n_tasks=(3, 8), fanout=(1, 3), p_fail=0.2,
-                   p_when=0.7, w_ctrl=0.2, w_rerun=0.15, steps=(15, 70))
+                   p_when=0.7, w_ctrl=0.6, p_pause_drain=0.5, w_rerun=0.15, steps=(15, 70))
 
 
 def features(sess):
